@@ -836,10 +836,33 @@ func OracleC09(c *Case, o *Outcome) string {
 		got := hx.EncEntry(SyncView(hx.Lookup(o.ScanAfter, ch.Path)))
 		want := hx.EncEntry(o.Results[i])
 		if got != want {
+			// Known deviation (by design of markExecutableForReaders): with a
+			// default file mode that grants read permission to nobody, an
+			// executable entry is created without any executability bit.
+			if c.Cfg.FileMode&0o444 == 0 &&
+				hx.EncEntry(stripExec(SyncView(hx.Lookup(o.ScanAfter, ch.Path)))) == hx.EncEntry(stripExec(o.Results[i])) {
+				return fmt.Sprintf("class=exec-without-read default file mode %o has no read bit: at %q reported %s, scan sees %s",
+					c.Cfg.FileMode, ch.Path, want, got)
+			}
 			return fmt.Sprintf("class=result-differs at %q reported %s, scan sees %s", ch.Path, want, got)
 		}
 	}
 	return ""
+}
+
+// stripExec returns a copy of the entry with every executability flag cleared.
+func stripExec(e *core.Entry) *core.Entry {
+	if e == nil {
+		return nil
+	}
+	c := &core.Entry{Kind: e.Kind, Digest: e.Digest, Target: e.Target, Problem: e.Problem}
+	for n, k := range e.Contents {
+		if c.Contents == nil {
+			c.Contents = map[string]*core.Entry{}
+		}
+		c.Contents[n] = stripExec(k)
+	}
+	return c
 }
 
 // OracleC10: every file that is in the root after the transition and was not
